@@ -878,8 +878,9 @@ def finish_namespace(res: dict, exe: typing.Optional[str], quirk: bool) -> None:
                     if cls != 'elem_foreign':
                         problems.append((cls, detail))
             for cls, detail in problems:
-                is_known = quirk and agrees and mdl is not None and (
-                    (cls == 'invalid_accepted' and trig) or cls == 'elem_range')
+                # an instance of the known finding: its trigger holds, the witness reproduces on this tree, and the quirk-faithful
+                # model (when it could be built) predicts exactly this outcome and state
+                is_known = quirk and agrees and ((cls == 'invalid_accepted' and trig) or cls == 'elem_range')
                 if is_known:
                     res['known_instances'] += 1
                 else:
@@ -988,10 +989,10 @@ def main(chk: core.Check, replay: typing.Optional[str] = None) -> int:
             if fl.get('case'):
                 fixed_for['replay'] = [(fl['case'], fl.get('expectations'))]
     else:
-        n_random = 3 if quick else 15
+        n_random = 3 if quick else 20
         for i in range(n_random):
             sub = random.Random(chk.rng.getrandbits(64))
-            specs.append(('r%d' % i, dsdlgen.generate(sub, n_types=12 if quick else 26, budget=600 if quick else 1200), 700 if quick else 10000))
+            specs.append(('r%d' % i, dsdlgen.generate(sub, n_types=12 if quick else 26, budget=600 if quick else 1200), 700 if quick else 14000))
     seeds = [chk.rng.getrandbits(32) for _ in specs]
     with concurrent.futures.ThreadPoolExecutor(max_workers=min(6, len(specs))) as ex:
         results = list(ex.map(lambda a: run_namespace(a[0][0], a[0][1], a[1], a[0][2], repo, exe, chk.tier, fixed_for.get(a[0][0])),
